@@ -20,14 +20,18 @@ EvOf(S) == {p[2] : p \in S}
 InNoHistory(o, e) == \A b \in DOMAIN o.hist : ~InSeq(e, o.hist[b])
 SomeBounded(cfg) == \E b \in BusNames(cfg) : MaxHist(cfg, b) > 0
 
+\* the events whose lost completion keeps an inline drain of await w.a going: the awaited tree itself, and the trees of the unrelated events
+\* that drain had already taken (F0) - their handlers' own nested drains run on this task too
+DrainScope(o, w) == Sub(o, w.a) \cup UNION {Sub(o, v.e) : v \in {u \in o.wit : u.c = "C05.unrelated" /\ u.a = w.a /\ u.k = "in"}}
+
 CompletionClauses == {"C03.hang", "C03.incomplete", "C03.not_completed", "C10.incomplete", "C04.incomplete", "C04.raised"}
 
 ClassifyBase(cfg, o, w) ==
   CASE w.c = "C05.unrelated" /\ w.k = "in"                                   -> "F0"
     \* the drain goes on although nothing of the awaited tree is left to process: only when a recorded finding lost that tree's completion
-    [] w.c = "C05.unrelated" /\ w.k = "in_nothing_left" /\ (Sub(o, w.a) \cap EvOf(StrandedR(cfg, o))) # {}                 -> "F2"
+    [] w.c = "C05.unrelated" /\ w.k = "in_nothing_left" /\ (DrainScope(o, w) \cap EvOf(StrandedR(cfg, o))) # {}                 -> "F2"
     [] w.c = "C05.unrelated" /\ w.k = "in_nothing_left" /\ SomeBounded(cfg) /\
-       \E d \in Sub(o, w.a) : ~o.snap[d].sig /\ o.snap[d].res # <<>> /\ ResDone(o.snap[d]) /\ InNoHistory(o, d)            -> "F11"
+       \E d \in DrainScope(o, w) : ~o.snap[d].sig /\ o.snap[d].res # <<>> /\ ResDone(o.snap[d]) /\ InNoHistory(o, d)         -> "F11"
     \* F0 again: an unrelated event drained inline runs under the draining handler's timeout; when that fires, the handlers of the
     \* unrelated event that had not started are failed without ever running
     [] w.c = "C01.missing" /\ <<w.b, w.e, "Cancelled">> \in o.procX /\ (\E tk \in o.take : tk[1] = w.b /\ tk[2] = w.e)
